@@ -23,7 +23,7 @@ package output
 //@ axiom [callOff_mono] forall s Service, c int :: 0 <= c && c <= len(s.Calls) ==> callOff(s, c) >= len(s.Args)
 
 //@ func (Service).AllArgs pure
-//@   property C06 C07 C05 C16 C02 C04
+//@   property C06 C07 C05 C16 C02 C04 C15 C12 C10
 //@   ensures [sound @sound] forall q int :: 0 <= q && q < len(result) ==> isArgOf(s, result[q])
 //@   ensures [len @pos] len(result) == callOff(s, len(s.Calls)) + len(s.Fields)
 //@   ensures [complete_args @pos] forall j int :: 0 <= j && j < len(s.Args) ==> result[j] == s.Args[j]
@@ -81,7 +81,7 @@ package output
 //@   forall j int :: 0 <= j && j < len(d.Args) ==> namesIn(d.Args[j].DependsOnServices, set)
 
 //@ func validateParamsExistsInParams
-//@   property C06 C16
+//@   property C06 C16 C05 C07 C15 C12 C10
 //@   reports_all
 //@   requires existing != nil
 //@   ensures [nonnil_elems] forall j int :: 0 <= j && j < len(result) ==> result[j] != nil
@@ -99,7 +99,7 @@ package output
 //@                    && (forall m int :: 0 <= m && m < $i ==> params[$i1].DependsOn[m] in dom(existing)) ==> len(errs) == 0
 
 //@ func validateParamsExistsInServices
-//@   property C06 C16
+//@   property C06 C16 C05 C07 C15 C12 C10
 //@   reports_all
 //@   requires existing != nil
 //@   ensures [nonnil_elems] forall j int :: 0 <= j && j < len(result) ==> result[j] != nil
@@ -127,7 +127,7 @@ package output
 // C06, parameters: accepted iff every %param% referenced from a parameter, a service (arguments, calls,
 // fields) or a decorator names a declared parameter.
 //@ func ValidateParamsExist
-//@   property C06 C15 C16
+//@   property C06 C15 C16 C05 C07 C12 C10
 //@   reports_all
 //@   ensures [accept_sound_params @a] result == nil ==> (forall j int :: 0 <= j && j < len(o.Params) ==> namesIn(o.Params[j].DependsOn, declaredParams(o)))
 //@   ensures [accept_sound_services @a] result == nil ==> (forall j int :: 0 <= j && j < len(o.Services) ==> svcParamsIn(o.Services[j], declaredParams(o)))
@@ -142,7 +142,7 @@ package output
 //@     invariant [set] dom(existing) == paramNames(o, $i)
 
 //@ func validateServicesExistsInServices
-//@   property C06 C16
+//@   property C06 C16 C05 C07 C15 C12 C10
 //@   reports_all
 //@   requires existing != nil
 //@   ensures [nonnil_elems] forall j int :: 0 <= j && j < len(result) ==> result[j] != nil
@@ -168,7 +168,7 @@ package output
 //@                    && (forall m int :: 0 <= m && m < $i ==> services[$i1].AllArgs()[$i2].DependsOnServices[m] in dom(existing)) ==> len(errs) == 0
 
 //@ func validateServicesExistsInDecorators
-//@   property C06 C16
+//@   property C06 C16 C05 C07 C15 C12 C10
 //@   reports_all
 //@   requires existing != nil
 //@   ensures [nonnil_elems] forall j int :: 0 <= j && j < len(result) ==> result[j] != nil
@@ -195,7 +195,7 @@ package output
 
 // C06, services: accepted iff every @service referenced from a service or a decorator names a declared service.
 //@ func ValidateServicesExist
-//@   property C06 C15 C16
+//@   property C06 C15 C16 C05 C07 C12 C10
 //@   reports_all
 //@   ensures [accept_sound_services @a] result == nil ==> (forall j int :: 0 <= j && j < len(o.Services) ==> svcServicesIn(o.Services[j], declaredServices(o)))
 //@   ensures [accept_sound_decorators @a] result == nil ==> (forall d int :: 0 <= d && d < len(o.Decorators) ==> decServicesIn(o.Decorators[d], declaredServices(o)))
@@ -208,7 +208,7 @@ package output
 //@     invariant [set] dom(existing) == serviceNames(o, $i)
 
 //@ func validateParamsExistsInDecorators
-//@   property C06 C16
+//@   property C06 C16 C05 C07 C15 C12 C10
 //@   reports_all
 //@   requires existing != nil
 //@   ensures [nonnil_elems] forall j int :: 0 <= j && j < len(result) ==> result[j] != nil
@@ -283,7 +283,7 @@ package output
 //@   || (exists j int :: 0 <= j && j < np && paramEdge(o.Params[j], a, b, len(o.Params[j].DependsOn)))
 
 //@ func (Output).BuildDependencyGraph
-//@   property C07 C05 C12
+//@   property C07 C05 C12 C06 C15 C16 C10
 //@   modifies edges
 //@   ensures [nonnil] result != nil
 //@   ensures [every_dependency_is_an_edge @complete] forall a Node, b Node :: depRel(o, a, b, len(o.Services), len(o.Decorators), len(o.Params)) ==> edge(edges, a, b)
@@ -321,7 +321,7 @@ package output
 
 // C07: accepted iff the dependency relation (exactly depRel, by BuildDependencyGraph's contract) has no cycle
 //@ func ValidateCircularDeps
-//@   property C07 C12 C16
+//@   property C07 C12 C16 C05 C06 C15 C10
 //@   reports_all
 //@   modifies edges
 //@   ensures [graph_is_the_dependency_relation] forall a Node, b Node :: edge(edges, a, b) <==> depRel(o, a, b, len(o.Services), len(o.Decorators), len(o.Params))
@@ -333,7 +333,7 @@ package output
 //@   o.Services[j].Scope == ScopeShared && o.Services[k].Scope == ScopeContextual && reach(e, svc(o.Services[j].Name), svc(o.Services[k].Name))
 
 //@ func ValidateServicesScopes
-//@   property C05 C16 C12
+//@   property C05 C16 C12 C06 C07 C15 C10
 //@   reports_all
 //@   requires [service_names_distinct] forall a int, b int :: 0 <= a && a < b && b < len(o.Services) ==> o.Services[a].Name != o.Services[b].Name
 //@   modifies edges
